@@ -2,6 +2,7 @@
 from __future__ import annotations
 
 from kfv.core import Ctx
+from kfv.rules import coh_rules as C
 from kfv.rules import dist_rules as D
 
 NEEDS_TYPES = False
@@ -24,3 +25,4 @@ def run(ctx: Ctx) -> None:
     ctx.do(D.rule_idx_triu)
     ctx.do(D.rule_dom_valid)
     ctx.do(D.rule_rank_space)
+    ctx.do(C.rule_cfg_fwd)
